@@ -798,3 +798,100 @@ def r18_stage(body, name, before, proof, fn_name):
     pos = toks[code[hit]].start
     open_end = toks[code[0]].end
     return body[:open_end] + '\nlet %s = %s;\n%s\n%s' % (name, body[open_end:pos].strip(), proof, name) + body[pos:]
+
+
+def r20_select(text):
+    """R20: `tokio::select! { p0 = e0 => h0, p1 = e1 => h1, .. }` becomes a nondeterministic choice among the arms whose future can
+    complete (A-SELECT): every future expression is evaluated first (as select! does), one arm k with `vx_can_complete()` is chosen by the
+    external `vx_select<N>`, its future is resolved with `vx_ready()`, the other futures are dropped un-completed (`vx_cancel()`: the
+    cancel-safety assumption made explicit), then the handler runs. Comments inside the macro are kept with their arm."""
+    count = 0
+    while True:
+        toks = lex(text)
+        hit = None
+        for k, t in enumerate(toks):
+            if t.kind == 'ident' and t.text == 'tokio':
+                n1 = _next_code(toks, k); n2 = _next_code(toks, n1); n3 = _next_code(toks, n2); n4 = _next_code(toks, n3); n5 = _next_code(toks, n4)
+                if (toks[n1].text, toks[n2].text, toks[n3].text, toks[n4].text, toks[n5].text) == (':', ':', 'select', '!', '{') or \
+                   (toks[n1].text == '::' and toks[n2].text == 'select' and toks[n3].text == '!' and toks[n4].text == '{'):
+                    ob = n5 if toks[n5].text == '{' and toks[n4].text == '!' else n4
+                    hit = (k, ob)
+                    break
+        if not hit:
+            return text, count
+        k, ob = hit
+        cb = match_close(toks, ob)
+        # split arms: <pattern> = <future expr> => <handler> [,]
+        arms = []
+        i = ob + 1
+        while True:
+            # skip ws/comments
+            while i < cb and toks[i].kind in ('ws', 'comment'):
+                i += 1
+            if i >= cb:
+                break
+            # pattern up to '=' at depth 0 (not '==', '=>')
+            j, depth = i, 0
+            while True:
+                x = toks[j]
+                if x.kind == 'punct' and x.text in '([{': depth += 1
+                elif x.kind == 'punct' and x.text in ')]}': depth -= 1
+                elif x.kind == 'punct' and x.text == '=' and depth == 0 and toks[j + 1].text not in ('=', '>'):
+                    break
+                j += 1
+                if j >= cb: raise Undecided('R20: cannot parse select! arm pattern')
+            pat = ''.join(t.text for t in toks[i:j] if t.kind != 'comment').strip()
+            # future expression up to '=>' at depth 0
+            e0 = j + 1
+            j2, depth = e0, 0
+            while True:
+                x = toks[j2]
+                if x.kind == 'punct' and x.text in '([{': depth += 1
+                elif x.kind == 'punct' and x.text in ')]}': depth -= 1
+                elif x.kind == 'punct' and x.text == '=' and toks[j2 + 1].text == '>' and depth == 0:
+                    break
+                elif x.kind == 'punct' and x.text == '=>' and depth == 0:
+                    break
+                j2 += 1
+                if j2 >= cb: raise Undecided('R20: cannot parse select! arm future')
+            fut = ''.join(t.text for t in toks[e0:j2]).strip()
+            h0 = j2 + (1 if toks[j2].text == '=>' else 2)
+            # handler: a block `{..}` or an expression up to ',' at depth 0
+            h = h0
+            while toks[h].kind in ('ws', 'comment'):
+                h += 1
+            if toks[h].text == '{':
+                he = match_close(toks, h)
+                handler = ''.join(t.text for t in toks[h:he + 1])
+                i = he + 1
+                nx = i
+                while nx < cb and toks[nx].kind in ('ws', 'comment'): nx += 1
+                if nx < cb and toks[nx].text == ',': i = nx + 1
+            else:
+                j3, depth = h, 0
+                while j3 < cb:
+                    x = toks[j3]
+                    if x.kind == 'punct' and x.text in '([{': depth += 1
+                    elif x.kind == 'punct' and x.text in ')]}': depth -= 1
+                    elif x.kind == 'punct' and x.text == ',' and depth == 0:
+                        break
+                    j3 += 1
+                handler = '{ ' + ''.join(t.text for t in toks[h:j3]).strip() + ' }'
+                i = j3 + 1
+            arms.append((pat, fut, handler))
+        n = len(arms)
+        if n < 2 or n > 4:
+            raise Undecided('R20: select! with %d arms' % n)
+        out = ['{']
+        for a, (pat, fut, handler) in enumerate(arms):
+            out.append('let vx_f%d = %s;' % (a, fut))
+        out.append('match vx_select%d(%s) {' % (n, ', '.join('vx_f%d.vx_can_complete()' % a for a in range(n))))
+        for a, (pat, fut, handler) in enumerate(arms):
+            head = ('%d' % a) if a < n - 1 else '_'
+            cancels = ' '.join('vx_f%d.vx_cancel();' % b for b in range(n) if b != a)
+            out.append('%s => { let %s = vx_f%d.vx_ready(); %s\n%s }' % (head, pat, a, cancels, handler))
+        out.append('} }')
+        start = toks[k].start
+        end = toks[cb].end
+        text = text[:start] + '\n'.join(out) + text[end:]
+        count += 1
